@@ -13,6 +13,8 @@ LEVEL_NOTE = "thin claim: enforcement only; result-set properties are not decide
 
 
 def run(ctx):
+    from . import guardvocab
+    guardvocab.G0(ctx, effects={'backtrack'})
     pathrules.E1(ctx)
     pathrules.E2(ctx)
     pathrules.E3(ctx)
